@@ -25,9 +25,9 @@
 (*  min/max clamps, `>= group.begin` transfers, `address`, `deltas`,       *)
 (*  insert_padding with its padding blocks, PaddingError.                  *)
 (* MODEL: Init enumerates the COMPLETE finite layout space of the          *)
-(*  configuration; actions Split, Grow, Join run Level B; the invariants   *)
-(*  state that Level B satisfies Level A on every layout (U1) and every    *)
-(*  layout is printed as a case (U3).                                      *)
+(*  configuration; actions Split, Grow, Annotate, Join run Level B; the    *)
+(*  invariants state that Level B satisfies Level A on every layout (U1)   *)
+(*  and every layout is printed as a case (U3).                            *)
 (***************************************************************************)
 EXTENDS Integers, Sequences, FiniteSets, TLC, Json, SequencesExt, Functions, FiniteSetsExt
 
